@@ -14,7 +14,7 @@ INF = 255
 NSLOT = 4
 F1, G1, F2, V1, R1, CR1, SV1, CF1 = range(8)
 MK = dict(ANY=0, EQ=1, LT=2, VAL=3, NE=4, GE=5)
-TF = dict(RT=0, DEFAULT=1, N=2, LH=3, ATLEAST=4, ATMOST=5, ALLOW=6, FORBID=7)
+TF = dict(RT=0, DEFAULT=1, N=2, LH=3, ATLEAST=4, ATMOST=5, ALLOW=6, FORBID=7, RT1=8)
 ACT = dict(RET=0, THROW_INT=1, THROW_STD=2, NONE=3, RETREF=4, RETCAP=5, RETSTR=6)
 MOCK = dict(M=0, MV=1, W=2)
 (OP_CREATE, OP_RELEASE, OP_CALL, OP_DESTROY_MOCK, OP_MOVE_MOCK, OP_DESTROY_SEQ, OP_MOVE_SEQ, OP_NEW_WATCHED, OP_DELETE_WATCHED,
@@ -102,6 +102,8 @@ class Gen:
             elif c == 'T':
                 if tform == TF['RT']:
                     chain += '.RT_TIMES(size_t(op.lo), op.hi == 255 ? ~size_t(0) : size_t(op.hi))'
+                elif tform == TF['RT1']:
+                    chain += '.RT_TIMES(size_t(op.lo))'
                 elif tform == TF['N']:
                     chain += '.TIMES(%d)' % tl
                 elif tform == TF['LH']:
@@ -406,6 +408,8 @@ def c03_forms(g):
     for l in range(0, 4):
         for h in list(range(l, 4)) + [INF]:
             forms.append((dict(tform='RT'), l, h))
+    for n in range(0, 4):
+        forms.append((dict(tform='RT1'), n, n))     # RT_TIMES(n): exactly n
     return forms
 
 
@@ -423,6 +427,10 @@ def plans_C03(g, tier):
         pre.append([tested(0), allow(1, 'EQ')])       # under a newer ALLOW_CALL that claims argument 1 only
         pre.append([g.create(0, g.shape(fn=F1, mk1='ANY', tform='RT'), obj=0, lo=1, hi=2), tested(1)])  # two stacked bounded expectations (both can saturate)
         pre.append([tested(0, 'EQ')])                 # exact-value matcher: other arguments are no-match calls that name it
+        if kw['tform'] not in ('DEFAULT', 'ALLOW', 'FORBID') and not (hi == 0):
+            # the same bounds on a sequenced expectation, stated before or after IN_SEQUENCE (the sequence handler takes them over)
+            for order in ('TQA', 'QTA'):
+                pre.append([g.create(0, g.shape(fn=F1, mk1='ANY', seqar=1, clauses=order, **kw), obj=0, k1=1, lo=lo, hi=hi, s1=0)])
         vtested = lambda slot, kw=kw, lo=lo, hi=hi: g.create(slot, g.shape(fn=F1, mk1='ANY', vform=True, **kw), obj=0, k1=1, lo=lo, hi=hi)
         pre.append([vtested(0)])                      # the variadic macro form of the same expectation
         pre.append([g.create(0, g.shape(fn=F1, mk1='ANY', tform='ALLOW', vform=True), obj=0, k1=1), vtested(1)])
